@@ -31,6 +31,9 @@ RULE = ("Hypothesis draws a type program biased to naming features: classes / Ne
         "definitions_schema returns exactly the inline definitions - for the root alone and for 2-4 entries (root, classes, containers of "
         "them, 45% paired with a dynamic conversion between two classes of the program): union of the entries' inline $defs under "
         "all_refs=True, closed under $ref, independent of entry order; a name clash raises ValueError instead of producing a schema.  "
+        "A second enumerated family (156 cases) gives the name through Annotated[T, type_name('Tags')] with T in {Tag, List[Tag], Dict[str, Tag], "
+        "Optional[Tag]} used 1-3 times (+ Tag used directly or not) and an unnamed class recursive through such an annotation: $defs must be exactly "
+        "the names used more than once / all of them / the recursive one.  "
         "A small enumerated family covers inherited discriminators (@discriminator on a plain or dataclass base, two dataclass children, "
         "roots Base / a child / a holder of children / List[Base] / Union of the children / Optional[Base] x all_refs x direction): generation does "
         "not raise, the schema is meta-schema valid, every $ref and discriminator mapping target is defined, validating a datum terminates.  "
@@ -216,6 +219,7 @@ def enumerate_cases(tier):
         if base_field and not base_dataclass:
             continue
         yield {"disc_family": True, "base_dataclass": base_dataclass, "base_field": base_field, "root": root, "all_refs": all_refs, "entry": entry}
+    yield from ann_cases()
 
 
 def evaluate_disc(case, ctx):
@@ -262,9 +266,87 @@ def evaluate_disc(case, ctx):
         b.close()
 
 
+ANN_INNER = {"list": "List[Tag]", "map": "Dict[str, Tag]", "opt": "Optional[Tag]", "bare": "Tag"}
+
+
+def ann_source(case) -> str:
+    """A name given through Annotated[T, type_name('Tags')] (json_schema.md), used `uses` times; T contains a named class
+    used once (hence inlined when all_refs is off) - or, in the recursive variant, an unnamed class which refers to itself
+    through the named annotation only."""
+    if case["rec"]:
+        lines = ["@type_name(None)", "@dataclass", "class Node:", "    v: int = 0",
+                 "    children: Annotated[List['Node'], type_name('Nodes')] = field(default_factory=list)"]
+        lines += ["    more: Annotated[List['Node'], type_name('Nodes')] = field(default_factory=list)"] if case["uses"] > 1 else []
+        lines += ["ROOT = Node"]
+        return "\n".join(lines) + "\n"
+    lines = ["@dataclass", "class Tag:", "    v: int = 0", "", f"Tags = Annotated[{ANN_INNER[case['inner']]}, type_name('Tags')]", "",
+             "@dataclass", "class Post:"]
+    lines += [f"    t{i}: Tags" for i in range(case["uses"])]
+    if case["direct"]:
+        lines.append("    direct: Tag")
+    lines += ["ROOT = Post"]
+    return "\n".join(lines) + "\n"
+
+
+def ann_cases():
+    for inner, uses, direct, all_refs, entry in itertools.product(ANN_INNER, (1, 2, 3), (False, True), (None, True, False), ("deserialization", "serialization")):
+        yield {"ann_family": True, "rec": False, "inner": inner, "uses": uses, "direct": direct, "all_refs": all_refs, "entry": entry}
+    for uses, all_refs, entry in itertools.product((1, 2), (None, True, False), ("deserialization", "serialization")):
+        yield {"ann_family": True, "rec": True, "inner": "list", "uses": uses, "direct": False, "all_refs": all_refs, "entry": entry}
+
+
+def evaluate_ann(case, ctx):
+    ctx.count()
+    src = build.PRELUDE + ann_source(case)
+    try:
+        b = build.load({"future": False, "enums": [], "newtypes": [], "classes": []}, source=src)
+    except Exception as e:
+        raise HarnessError(f"annotated-name program does not build: {e!r}\n{src}")
+    sig0 = {"family": "annotated_type_name", "rec": case["rec"], "inner": case["inner"], "uses": min(case["uses"], 2), "direct": case["direct"],
+            "all_refs": str(case["all_refs"])}
+    try:
+        fn = deserialization_schema if case["entry"] == "deserialization" else serialization_schema
+        kw = {} if case["all_refs"] is None else {"all_refs": case["all_refs"]}
+        try:
+            schema = json.loads(json.dumps(fn(b.root, **kw)))
+        except BaseException as e:
+            ctx.violation({"kind": "crash", "exc": type(e).__name__, **sig0}, case, f"{type(e).__name__}: {e}\n{ann_source(case)}")
+            return
+        bad = jsoracle.check_schema(schema, "2020-12")
+        if bad:
+            ctx.violation({"kind": "invalid_against_declared_dialect", **sig0}, case, f"{bad}\n{tdcase.compact(schema, 700)}")
+            return
+        defs = schema.get("$defs", {})
+        dangling = sorted({r for r in collect_refs(schema) if not (r.startswith("#/$defs/") and r[len("#/$defs/"):] in defs)})
+        if dangling:
+            ctx.violation({"kind": "dangling_ref", **sig0}, case, f"{dangling} not in $defs {sorted(defs)}\n{tdcase.compact(schema, 900)}")
+            return
+        if case["rec"]:
+            expected = {"Nodes"}  # the recursion goes through the named annotation, whatever all_refs is
+        elif case["all_refs"]:
+            expected = {"Tags", "Tag", "Post"}
+        else:
+            expected = ({"Tags"} if case["uses"] > 1 else set()) | ({"Tag"} if case["direct"] else set())
+            # Tag is used once inside the definition of Tags (or once inline) and once directly when `direct`
+        got = set(defs)
+        if case["all_refs"] and not case["rec"]:
+            got |= {"Post"} if schema.get("$ref") == "#/$defs/Post" or "Post" in defs else set()
+        if got != expected:
+            ctx.violation({"kind": "definitions_differ", "extra": sorted(got - expected), "missing": sorted(expected - got), **sig0}, case,
+                          f"$defs {sorted(defs)}, expected {sorted(expected)}\n{ann_source(case)}\n{tdcase.compact(schema, 900)}")
+            return
+        ctx.nontriv(["ann_family", case])
+        ctx.sample({"program": ann_source(case), "entry": case["entry"], "all_refs": case["all_refs"], "definitions": sorted(defs)})
+        ctx.h("ann_family")
+    finally:
+        b.close()
+
+
 def evaluate(case, ctx):
     if case.get("disc_family"):
         return evaluate_disc(case, ctx)
+    if case.get("ann_family"):
+        return evaluate_ann(case, ctx)
     prog, opts = case["prog"], case["opts"]
     ctx.count()
     try:
